@@ -123,6 +123,16 @@ run_schedule(struct mmgr **pmm, int cfg, const struct suite *cs, const struct su
                 g.dir = cls == 2 ? IMB_DIR_ENCRYPT : 0;
                 g.len = lenmode == 0 ? 16 * (1 + (long) ((seed + (uint64_t) i * 7) % 11)) : lenmode == 1 ? 64 : 1 + (long) ((seed * 31 + (uint64_t) i * 13) % 300);
                 g.inplace = cls == 2 ? 0 : -1; /* plaintext class: keep the plaintext pattern out of the (public) output */
+                if (cs && (cs->cipher == IMB_CIPHER_KASUMI_UEA1_BITLEN || cs->cipher == IMB_CIPHER_SNOW3G_UEA2_BITLEN ||
+                           cs->cipher == IMB_CIPHER_CNTR_BITLEN) && ((seed + (uint64_t) i) & 1)) {
+                        /* bit lengths that are not byte multiples (and short ones) take the *_bit code paths */
+                        g.bits = 1;
+                        g.len = g.len * 8 - (long) ((seed >> 3) % 8);
+                        if (((seed >> 6) & 3) == 0)
+                                g.len = 1 + (long) ((seed >> 8) % 64); /* single block */
+                        if (g.len < 1)
+                                g.len = 1;
+                }
                 item_gen(I[i], cs, hs, &r, &g, mm);
                 if (cls == 2 && I[i]->inplace) {
                         *skipped = 1; /* suites forced in place: the ciphertext replaces the plaintext, nothing to find */
